@@ -1,36 +1,41 @@
 import VarproModel.Drv.Parse
 import VarproModel.Drv.PBuilder
 import VarproModel.Drv.SepModel
+import VarproModel.Drv.State
 /-!
 # driver — reads a case file (line protocol), runs the executable model on every case and
 prints one verdict line per case.  Imports only `Core/` and `Drv/` (no Mathlib), so it links.
 -/
 open Varpro Varpro.Drv
 
-def dispatch (c : Case) : String :=
+def dispatch (focus : String) (c : Case) : String :=
   match c.kind with
   | "pbuilder" => handlePBuilder c
   | "sepmodel" => handleSepModel c
+  | "state" => handleState focus c
   | k => s!"corr=INTERNAL(unknown-kind-{k}) mon=ok nontrivial=0 tag=none"
 
-partial def loop (h : IO.FS.Stream) (cur : Option Case) : IO Unit := do
+partial def loop (focus : String) (h : IO.FS.Stream) (cur : Option Case) : IO Unit := do
   let line ← h.getLine
   if line.isEmpty then return ()
   let toks := tokens (line.trimAscii.toString)
   match cur with
   | none =>
     if toks.getD 0 "" == "case" then
-      loop h (some { id := natAt toks 1, kind := toks.getD 2 "", header := toks, body := #[] })
-    else loop h none
+      loop focus h (some { id := natAt toks 1, kind := toks.getD 2 "", header := toks, body := #[] })
+    else loop focus h none
   | some c =>
     if toks.getD 0 "" == "end" then
-      IO.println s!"case {c.id} {dispatch c}"
-      loop h none
-    else loop h (some { c with body := c.body.push toks })
+      IO.println s!"case {c.id} {dispatch focus c}"
+      loop focus h none
+    else loop focus h (some { c with body := c.body.push toks })
 
 def main (args : List String) : IO Unit := do
   match args with
   | [path] =>
     let hdl ← IO.FS.Handle.mk path .read
-    loop (IO.FS.Stream.ofHandle hdl) none
-  | _ => loop (← IO.getStdin) none
+    loop "all" (IO.FS.Stream.ofHandle hdl) none
+  | [path, focus] =>
+    let hdl ← IO.FS.Handle.mk path .read
+    loop focus (IO.FS.Stream.ofHandle hdl) none
+  | _ => loop "all" (← IO.getStdin) none
